@@ -278,7 +278,7 @@ fn random_case(rng: &mut Rng, max_prec: usize, max_gap: i64) -> Value {
     };
     // precisions at which the working shift of a short operand is a whole number of machine words (or double words):
     // 64 k / log2(B) + 0..2 digits - where a power of the base is exactly 2^64, 2^128, 2^192
-    if base.is_power_of_two() && rng.below(10) == 0 {
+    if base.is_power_of_two() && rng.below(4) == 0 {
         let g = base.trailing_zeros() as usize;
         prec = 64 * (1 + rng.below(3) as usize) / g + rng.below(3) as usize;
     }
